@@ -48,6 +48,7 @@ __CPROVER_assigns(__CPROVER_object_whole(self), g_cstep, g_mq_len_self, g_mq_tar
 __CPROVER_ensures(self->m_states[g_k] == rhs->m_states[g_k])                                                             /*@ob C15,C03.active-state-of-every-region-copied */
 __CPROVER_ensures(self->m_history_last[g_k] == rhs->m_history_last[g_k] && self->m_history_init[g_k] == rhs->m_history_init[g_k])   /*@ob C15,C08.history-memory-copied */
 __CPROVER_ensures(self->m_event_processing == rhs->m_event_processing && self->m_is_included == rhs->m_is_included)    /*@ob C15.processing-flags-copied */
+__CPROVER_ensures(self->m_upper_fsm == __CPROVER_old(self->m_upper_fsm) && self->m_root_sm == __CPROVER_old(self->m_root_sm))     /*@ob C15,C07.the-copy-keeps-its-own-wiring-to-the-machines-around-it */
 __CPROVER_ensures(g_cstep == (CP_STATES | CP_MQ | CP_DQ | CP_HIST | CP_SUBSTATES | CP_SMPTR))                            /*@ob C15.every-member-copied-and-substate-back-pointers-reset */
 __CPROVER_ensures(g_mq_len_self == g_mq_len_rhs && g_dq_len_self == g_dq_len_rhs)                                        /*@ob C15,C04,C05,C20.pending-events-copied */
 __CPROVER_ensures((g_mq_len_self > 0 ==> g_mq_target_self == self) && (g_dq_len_self > 0 ==> g_dq_target_self == self))  /*@ob C15.pending-events-of-the-copy-belong-to-the-copy */
